@@ -484,6 +484,16 @@ func vfGenBody(t *rapid.T, label string, response bool) vfBodySpec {
 			if flags&1 != 0 {
 				enc := strings.ToLower(spec.Encoding)
 				payload = verifkit.IndepEncode(enc, payload)
+				// a peer may flag as compressed what is not a valid stream of the negotiated encoding: cut inside
+				// the stream header, or not that format at all (the tracer then has no content to show, and goes on)
+				switch rapid.IntRange(0, 7).Draw(t, label+"-corruptEnd") {
+				case 0:
+					if len(payload) > 3 {
+						payload = payload[:3]
+					}
+				case 1:
+					payload = []byte("this is not compressed at all")
+				}
 			}
 		} else {
 			switch rapid.IntRange(0, 5).Draw(t, label+"-sizekind") {
